@@ -129,8 +129,12 @@ func init() {
 		totalImpl[k] = v
 		deb822Impl[k] = v
 		versionImpl[k] = v
+		codecImpl[k] = v
+		debImpl[k] = v
+		uploadImpl[k] = v
 	}
-	for _, id := range []string{"C03", "C07", "C18"} {
+	// C10 / C14 / C20: their path theorems are about Base/Path.lean (Clean, Join, Dir, Base, Ext)
+	for _, id := range []string{"C03", "C07", "C18", "C10", "C14", "C20"} {
 		p := core.Lookup(id)
 		p.Streams = append(p.Streams, base)
 	}
